@@ -199,11 +199,21 @@ func H_Faults() {
 		w.Regs[r] = kit.Reg{Present: true, Life: lifes[vrt.Pick("life"+string(rune('0'+r)), 0, 2)], Form: kit.IdPlain, Variant: 1}
 	}
 	w.Regs[2].Variant = 0
+	// leaf3=1: the chain is 0 -> 1 -> 3 instead: slot 3 is disposable (slot 2 is
+	// not), so the leaf's Close is observable too
+	leaf := 2
+	if vrt.Param("leaf3", 0) == 1 {
+		leaf = 3
+		w.N = 4
+		w.Regs[3] = w.Regs[2]
+		w.Regs[2] = kit.Reg{}
+		w.Regs[1].Variant = 11
+	}
 	vrt.Assume(buildable(w))
 	// the failing constructor's shape: (T, error), (T, A, error) or (result object, error)
 	fform := []int{kit.IdPlain, kit.IdMulti, kit.IdResObj, kit.IdIface}[vrt.Pick("fform", 0, 3)]
 	viaModule := vrt.Pick("module", 0, 1) == 1
-	kit.FaultSlot = vrt.Pick("fslot", 0, 2)
+	kit.FaultSlot = []int{0, 1, leaf}[vrt.Pick("fslot", 0, 2)]
 	kit.FaultNth = vrt.Pick("fnth", 1, 2)
 	// a typed nil pointer result is a value as far as the statement goes; the
 	// fault kinds here are "returns an error" and "panics"
@@ -241,11 +251,11 @@ func H_Faults() {
 			}
 			return godi.AddTransient(cc)
 		}
-		err := c.AddModules(godi.NewModule("outer", godi.NewModule("inner", ctor(0), ctor(1)), ctor(2)))
+		err := c.AddModules(godi.NewModule("outer", godi.NewModule("inner", ctor(0), ctor(1)), ctor(leaf)))
 		vrt.Assume(err == nil)
 	} else {
 		errs := w.Register(c)
-		vrt.Assume(!addErrs(errs, 3))
+		vrt.Assume(!addErrs(errs, w.N))
 	}
 
 	classify := func(err error, where string) {
@@ -330,7 +340,7 @@ func H_Faults() {
 		}
 		if in != nil && in.Slot == 0 {
 			// the retry result is fully wired: 0 -> 1 -> 2
-			ok := len(in.Args) == 1 && in.Args[0] != nil && in.Args[0].Slot == 1 && len(in.Args[0].Args) == 1 && in.Args[0].Args[0] != nil && in.Args[0].Args[0].Slot == 2
+			ok := len(in.Args) == 1 && in.Args[0] != nil && in.Args[0].Slot == 1 && len(in.Args[0].Args) == 1 && in.Args[0].Args[0] != nil && in.Args[0].Args[0].Slot == leaf
 			vrt.Assert(ok, "C15.partial_value", "value returned after a failure is not fully wired")
 		}
 	}
